@@ -93,10 +93,13 @@ class FsTr:
             return out
         if (isinstance(e, ast.Call) and isinstance(e.func, ast.Attribute) and e.func.attr == 'exists'
                 and _is_name(e.func.value, self.path) and not e.args and not e.keywords):
-            return '(fs_exists %s %s)' % (s, self.path)
+            return '(fs_exists %s (resolve e %s))' % (s, self.path)
+        if (isinstance(e, ast.Call) and isinstance(e.func, ast.Attribute) and e.func.attr == 'is_symlink'
+                and _is_name(e.func.value, self.path) and not e.args and not e.keywords):
+            return '(is_symlink e %s)' % self.path          # lstat: does not follow
         if (isinstance(e, ast.Call) and isinstance(e.func, ast.Attribute) and e.func.attr == 'is_dir'
                 and _is_name(e.func.value, self.path) and not e.args and not e.keywords):
-            return '(fs_is_dir %s %s)' % (s, self.path)
+            return '(fs_is_dir %s (resolve e %s))' % (s, self.path)
         raise Unsupported('boolean expression %s' % ast.dump(e)[:120])
 
     def nexpr(self, e: ast.expr, s: str) -> str:
@@ -109,7 +112,7 @@ class FsTr:
         if (isinstance(e, ast.Attribute) and e.attr == 'st_mode' and isinstance(e.value, ast.Call)
                 and isinstance(e.value.func, ast.Attribute) and e.value.func.attr == 'stat'
                 and _is_name(e.value.func.value, self.path) and not e.value.args and not e.value.keywords):
-            return '(fs_st_mode %s %s)' % (s, self.path)
+            return '(fs_st_mode %s (resolve e %s))' % (s, self.path)
         if isinstance(e, ast.Attribute) and _is_name(e.value, 'stat') and e.attr in STAT_BITS:
             return '%d' % STAT_BITS[e.attr]
         if isinstance(e, ast.Attribute) and _is_name(e.value, 'self') and e.attr in self.self_ints:
@@ -130,7 +133,7 @@ class FsTr:
             c = st.value
             if (isinstance(c.func, ast.Attribute) and c.func.attr == 'chmod' and _is_name(c.func.value, self.path)
                     and len(c.args) == 1 and not c.keywords):
-                return '(fs_chmod e %s %s %s)' % (s, self.path, self.nexpr(c.args[0], s))
+                return '(fs_chmod e %s (resolve e %s) %s)' % (s, self.path, self.nexpr(c.args[0], s))
             if isinstance(c.func, ast.Attribute) and isinstance(c.func.value, ast.Name) and c.func.value.id == 'logger' and not _fs_calls(c):
                 return '(%s, Ok)' % s
         if isinstance(st, ast.Pass):
